@@ -76,15 +76,25 @@ class RequestContextHolder:
 
     @classmethod
     def update_request_start(cls, new_request_start):
+        # a sub-request context without any request has nothing to propagate
+        if new_request_start is None:
+            return
         meta = cls.request_context.get()
-        # this can happen if multiple requests are sent on the wire for one logical request (e.g. scrolls)
-        if "request_start" not in meta:
+        # keep the earliest start: multiple requests may be sent on the wire for one logical request (e.g. scrolls)
+        # and concurrent sub-requests may finish in a different order than they have started
+        current = meta.get("request_start")
+        if current is None or new_request_start < current:
             meta["request_start"] = new_request_start
 
     @classmethod
     def update_request_end(cls, new_request_end):
+        if new_request_end is None:
+            return
         meta = cls.request_context.get()
-        meta["request_end"] = new_request_end
+        # keep the latest end
+        current = meta.get("request_end")
+        if current is None or new_request_end > current:
+            meta["request_end"] = new_request_end
 
     @classmethod
     def on_request_start(cls):
